@@ -443,6 +443,11 @@ fn clone_under_guard(name: &str, toks: &[Tok], handle: &[&str], erased_get_is_te
         }
         return Ok(false);
     }
+    // the lookup goes through a temporary guard: it is gone at the end of the
+    // lookup's statement, before anything is cloned
+    if recv.ends_with(".0.lock().unwrap()") {
+        return Ok(false);
+    }
     // the lookup goes through a guard bound by `let`
     let guard = toks.iter().enumerate().find_map(|(i, t)| match t {
         Tok::Lock { bound: Some(b), scope, .. } if b == recv && i < li => Some((i, scope.clone())),
